@@ -243,6 +243,10 @@ def rule_body_text(ctx, file, s):
     s = sub("R-jsoncmp", r"(%s) != (%s)" % (VI, VI), r"!serde_json::value_eq(&\1, &\2)", s)
     # R-dynfn (call side): `validator(key, v)` on a `&dyn ValidatorFn` -> `validator.call(key, v)`
     s = sub("R-dynfn-call", r"\bvalidator\((\w+), ", r"validator.call(\1, ", s)
+    # R-mapiter: `for P in &self.F {` over a HashMap field -> `for P in __it: self.F.iter() {` (definition of IntoIterator for &HashMap; names the ghost iterator)
+    s = sub("R-mapiter", r"for (\([^)]*\)) in &self\.(\w+) \{", r"for \1 in __it: self.\2.iter() {", s)
+    # R-mapindex: `&self.F[k]` on a HashMap field -> `self.F.get(k).unwrap()` (both panic exactly when the key is absent)
+    s = sub("R-mapindex", r"&self\.(claim_validators|claims)\[(\w+)\]", r"self.\1.get(\2).unwrap()", s)
     # R-vecfrom: `Vec::from(x)` for a slice x is `x.to_vec()` (body of `impl From<&[T]> for Vec<T>`); vstd specifies to_vec only
     s = sub("R-vecfrom", r"\bVec::from\((\w+)\)", r"(\1).to_vec()", s)
     # R-stringfrom: `String::from(s)` for s: &str is `s.to_string()` (both copy the contents); vstd specifies the latter only
